@@ -1,6 +1,6 @@
 --------------------------- MODULE Trace_Recorder ---------------------------
 (* Trace validation (binding T) for C13.  Every line is one complete recording session on the REAL library:
-   Track.RecordFrom on a testdrv loopback at (res, bpm100/100), the chunks sent with the virtual-clock sleeps
+   Track.RecordFrom (or the file-level wrappers SMF.RecordFrom / smf.RecordTo) on a testdrv loopback at (res, bpm100/100), the chunks sent with the virtual-clock sleeps
    before them, the track after stop + Close(0), the bytes WriteTo produced, and what ReadFrom returned for
    them.  RecordFrom installs its own listener, so the arrival stamps cannot be observed: they are DERIVED
    here from the receiver model (Recorder!Heard = LiveDecoder!Deliver under RecordFrom's listen options); only
@@ -14,20 +14,28 @@ VARIABLES l, bad
 
 Trace == ndJsonDeserialize(IOEnv.VERIF_TRACE)
 
-ReadWhy(r, track, res) ==
+ReadWhy(r, tracks, res) ==
   IF r.kind # "value" THEN "the library cannot read the file back"
-  ELSE IF ~(r.fmt = 0 /\ r.tf = TimeFormat(BE16(res)) /\ r.tracks = <<track>>) THEN "the file reads back as different events"
+  ELSE IF ~(r.fmt = (IF Len(tracks) > 1 THEN 1 ELSE 0) /\ r.tf = TimeFormat(BE16(res)) /\ r.tracks = tracks)
+       THEN "the file reads back as different events"
   ELSE ""
 
+\* e.via: "track" Track.RecordFrom / "smf" SMF.RecordFrom / "file" smf.RecordTo; e.tracks: all tracks of the SMF that was
+\* written, e.ti: the position of the recorded one (0: none).  Other tracks (added, or recorded from a second port, while
+\* the recording ran) must not disturb it; the whole SMF must be a valid file that reads back as e.tracks.
 Judge(e) ==
   IF ~InDomain(e.chunks, e.lead, e.res, e.bpm100)
     THEN [ok |-> FALSE, info |-> [id |-> e.id, genbug |-> TRUE, panic |-> "", record |-> "", file |-> "", read |-> "", readmsg |-> ""]]
   ELSE
-  LET rec == RecordWhy(e.track, e.chunks, e.res, e.bpm100)
+  LET track == IF e.ti >= 1 /\ e.ti <= Len(e.tracks) THEN e.tracks[e.ti] ELSE <<>>
+      want == IF e.via = "smf" /\ e.extra # "none" THEN 2 ELSE 1
+      rec == IF track = <<>> THEN "the SMF holds no recorded track"
+             ELSE IF Len(e.tracks) # want THEN "the SMF does not hold the expected number of tracks"
+             ELSE RecordWhy(track, e.chunks, e.res, e.bpm100)
       fil == IF e.werr # "" THEN "WriteTo failed"
              ELSE IF e.size # Len(e.bytes) THEN "WriteTo reports a wrong size"
-             ELSE FileWhy(e.bytes, e.track, e.res)
-      rd  == ReadWhy(e.read, e.track, e.res)
+             ELSE FileWhyN(e.bytes, e.tracks, e.res)
+      rd  == ReadWhy(e.read, e.tracks, e.res)
   IN [ok |-> e.panic = "" /\ rec = "" /\ fil = "" /\ rd = "",
       info |-> [id |-> e.id, genbug |-> FALSE, panic |-> e.panic, record |-> rec, file |-> fil, read |-> rd,
                 readmsg |-> e.read.msg]]
